@@ -323,6 +323,8 @@ func checkC17(c *Ctx, r *Report) {
 			}
 			r.Check(exhausted, "C17.R3", "Parse succeeds only after consuming the whole string", c.InstrPos(ret), "success return is on the loop-exhausted edge", "Parse can succeed from inside the loop (break): characters after the unit are never looked at")
 			r.Check(hasFact(fs, "phi:foundDigit", true), "C17.R3", "Parse requires at least one digit", c.InstrPos(ret), "foundDigit == true", "a unit without digits (\"K\") is accepted as 0")
+			// ... and a unit: the documented form is digits followed by one unit letter; a bare number is not a size string
+			r.Check(hasFact(fs, "phi:foundUnit", true), "C17.R3", "Parse requires a unit", c.InstrPos(ret), "foundUnit == true", "a number without a unit (\"1024\", \"0\") is accepted as that many bytes although the documented form is digits plus one of B K M G T")
 			guard := false
 			for k := range fs {
 				if strings.Contains(k, "phi:num>") && strings.HasSuffix(k, "=false") {
@@ -505,6 +507,7 @@ func checkC18(c *Ctx, r *Report) {
 		"R3 the config file is replaced atomically: no truncating open of the live path; bytes reach it by os.Rename from a temp file in the same directory after a successful encode",
 		"R4 an update stages exactly the fields whose json tag equals the document key",
 		"R5 both entrances (file load and API update) run Config.verify",
+		"R6 an update's steps (staging, commit, verify, persist, rollback, confirm) all run with one common mutex in the must-held set: updates are applied one at a time",
 	}
 	r.NotDec = []string{"that the process survives and every component is unchanged as a run-time fact", "write failure after every byte count (R3 is the structural equivalent)", "semantic sufficiency of verify() beyond the listed consumers", "the short window in which a committed-but-not-yet-verified value is readable by concurrent requests before the rollback"}
 	li := BuildLocks(c)
@@ -613,6 +616,43 @@ func checkC18(c *Ctx, r *Report) {
 		r.Check(len(bad) == 0, "C18.R1", "every failing exit after staging rolls the staged properties back", c.InstrPos(setp), "all error returns after setPropsFromMapRecursive pass RollbackStaged for the staged list", "error return(s) at "+strings.Join(bad, ", ")+" leave staged/committed values behind: a rejected update stays live")
 		// the rollback covers the list that was staged
 		r.Check(extractOf(setp, 0) != nil, "C18.R1", "the list of staged properties is kept", c.InstrPos(setp), "result #0 used", "the staged list is discarded")
+	}
+	// R6: updates are applied one at a time. Staging, commit, verification, the write of the file, rollback and
+	// confirmation of one update run under one mutex: two updates in flight share the properties' staged / previous
+	// slots, so a rejected value can end up live (and then on disk), and an older snapshot can be renamed over a newer one.
+	for _, f := range c.FuncsNamed(configPkg + ".UpdatePartialFromConfig") {
+		var common lset
+		nSteps := 0
+		for _, hc := range helperContexts(f, 2) {
+			g := hc.fn
+			eachInstr(g, func(in ssa.Instruction) {
+				call, ok := in.(*ssa.Call)
+				if !ok {
+					return
+				}
+				n := calleeName(call)
+				step := false
+				switch {
+				case n == configPkg+".setPropsFromMapRecursive" && g == f, n == configPkg+".setPropsFromMap" && g == f:
+					step = true
+				case n == "(*"+configPkg+".Config).verify", n == "(*"+configPkg+".Config).persist":
+					step = true
+				case call.Call.IsInvoke() && (call.Call.Method.Name() == "CommitStaged" || call.Call.Method.Name() == "RollbackStaged" || call.Call.Method.Name() == "ConfirmCommitted"):
+					step = true
+				}
+				if !step {
+					return
+				}
+				nSteps++
+				held := li.HeldMust(in)
+				if common == nil {
+					common = held.clone()
+				} else {
+					common = inter(common, held)
+				}
+			})
+		}
+		r.Check(nSteps >= 5 && len(common) > 0, "C18.R6", "one update at a time: staging, commit, verify, persist, rollback and confirm share a mutex", c.Pos(f.Pos()), fmt.Sprintf("%d steps, common must-held lock(s) %s", nSteps, common), fmt.Sprintf("the steps of an update run without a common lock (%d steps, common must-held set %s): two concurrent PATCH requests interleave on the properties' staged/previous slots — four clients sending the rejected lock_shards:0 leave it live, and a rejected value reaches the file through a concurrent accepted update", nSteps, common))
 	}
 	// Stage/CommitStaged must not notify
 	var quiet []*ssa.Function
